@@ -27,12 +27,18 @@ import (
 func runC17Lattice(r *simrt.Run, tier Tier) Outcome {
 	const minDecl = "Decl minv(A, B, C) descr [mode('+', '+', '-'), deferred()].\nminv(A, B, C) :- A < B, C = A.\nminv(A, B, C) :- B <= A, C = B.\n"
 	diverges := r.Bool("c17l.diverge")
+	// base facts are either written in the program (they then count against
+	// the limit) or are in the store before evaluation starts
+	preload := !r.OneIn(3, "c17l.inline-base")
+	var base []Fact
 	var decls, clauses []string
 	if diverges {
 		decls = append(decls, "Decl best(L, S) descr [fundep([L], [S]), merge([S], \"minv\")].")
 		k1 := 1 + r.Choose(3, "c17l.step")
 		k2 := r.Choose(4, "c17l.cost")
-		clauses = append(clauses, "dseed(0).", "best(X, 0) :- dseed(X).",
+		base = append(base, Fact{Pred: "dseed", Args: []Val{IntV(0)}})
+		decls = append(decls, "Decl dseed(A).")
+		clauses = append(clauses, "best(X, 0) :- dseed(X).",
 			fmt.Sprintf("best(L2, S2) :- best(L, S), L2 = fn:plus(L, %d), S2 = fn:plus(S, %d).", k1, k2))
 		if r.Bool("c17l.second-rule") {
 			clauses = append(clauses, fmt.Sprintf("best(L2, S2) :- best(L, S), L2 = fn:plus(L, %d), S2 = fn:plus(S, 1).", k1))
@@ -41,8 +47,11 @@ func runC17Lattice(r *simrt.Run, tier Tier) Outcome {
 		decls = append(decls, "Decl dist(X, D) descr [fundep([X], [D]), merge([D], \"minv\")].")
 		keys := 2 + r.Choose(6, "c17l.keys")
 		nEdge := 1 + r.Choose(4, "c17l.edgepreds")
-		clauses = append(clauses, "start(/s).", "dist(X, 0) :- start(X).")
+		base = append(base, Fact{Pred: "start", Args: []Val{NameV("/s")}})
+		decls = append(decls, "Decl start(A).")
+		clauses = append(clauses, "dist(X, 0) :- start(X).")
 		for e := 1; e <= nEdge; e++ {
+			decls = append(decls, fmt.Sprintf("Decl edge%d(A, B, C).", e))
 			if r.Bool("c17l.edge-first") {
 				clauses = append(clauses, fmt.Sprintf("dist(Y, D) :- edge%d(X, Y, W), dist(X, C), D = fn:plus(C, W).", e))
 			} else {
@@ -54,9 +63,16 @@ func runC17Lattice(r *simrt.Run, tier Tier) Outcome {
 				if j > 1 && r.OneIn(3, "c17l.chain") {
 					from = fmt.Sprintf("/k%d", 1+r.Choose(j-1, "c17l.from"))
 				}
-				clauses = append(clauses, fmt.Sprintf("edge%d(%s, /k%d, %d).", e, from, j, 1+r.Choose(50, "c17l.w")))
+				base = append(base, Fact{Pred: fmt.Sprintf("edge%d", e), Args: []Val{NameV(from), NameV(fmt.Sprintf("/k%d", j)), IntV(int64(1 + r.Choose(50, "c17l.w")))}})
 			}
 		}
+	}
+	var baseText []string
+	for _, f := range base {
+		baseText = append(baseText, f.Src())
+	}
+	if !preload {
+		clauses = append(clauses, baseText...)
 	}
 	idx := shuffleInts(r, len(clauses), "c17l.perm")
 	shuffled := make([]string, len(clauses))
@@ -64,7 +80,11 @@ func runC17Lattice(r *simrt.Run, tier Tier) Outcome {
 		shuffled[i] = clauses[j]
 	}
 	src := strings.Join(decls, "\n") + "\n" + minDecl + strings.Join(shuffled, "\n") + "\n"
-	r.Logf("lattice program (diverges=%v):\n%s", diverges, src)
+	shown := src
+	if preload {
+		shown += "facts in the store before evaluation:\n  " + strings.Join(baseText, "\n  ") + "\n"
+	}
+	r.Logf("lattice program (diverges=%v):\n%s", diverges, shown)
 	cfg := drawStoreCfg(r)
 	withTemporal := r.Bool("c17l.temporalstore")
 	type res struct {
@@ -95,6 +115,11 @@ func runC17Lattice(r *simrt.Run, tier Tier) Outcome {
 			return res{stage: st, err: err}
 		}
 		inner := NewStore(cfg.Store)
+		if preload {
+			for _, f := range base {
+				inner.Add(ToAtom(f))
+			}
+		}
 		store := newCountingStore(inner, &out.created, budget)
 		var opts []engine.EvalOption
 		if limit > 0 {
@@ -146,7 +171,7 @@ func runC17Lattice(r *simrt.Run, tier Tier) Outcome {
 	for L := 1; L <= lmax; L++ {
 		budget := 2 * (len(clauses) + 8*(len(clauses)+2)*(L+1))
 		out := eval(L, budget)
-		ctx := fmt.Sprintf("limit=%d %s temporal-store-configured=%v\nprogram (%s):\n%s", L, cfg, withTemporal, map[bool]string{true: "infinite model through a lattice predicate", false: "finite model, lattice predicate"}[diverges], src)
+		ctx := fmt.Sprintf("limit=%d %s temporal-store-configured=%v\nprogram (%s):\n%s", L, cfg, withTemporal, map[bool]string{true: "infinite model through a lattice predicate", false: "finite model, lattice predicate"}[diverges], shown)
 		if out.over != nil {
 			return Violation("C17/unbounded-creation", "evaluation created %d facts, more than the bound %d for this limit and program size\n%s", out.over.n, budget, ctx)
 		}
